@@ -46,6 +46,9 @@ def strategy_case(draw):
             case["negative"] = [draw(st.booleans()) for _ in idx]
             if not any(case["negative"]):
                 case["negative"][-1] = True
+        elif len(idx) >= 2 and draw(st.integers(0, 2)) == 0:
+            # the index list names a set of modes: listing it in another order is the same reduction (accept-or-correct)
+            case["listed"] = list(draw(st.permutations(idx)))
     elif op == "dot":
         case["y"] = draw(gen.tt_spec(N=x["N"], dt=x["dt"], mode=x["mode"]))
     elif op == "dot_axis":
@@ -174,6 +177,13 @@ def execute(case):
                 got = lib(lambda: x.sum(arg))
             except core.LibraryException:
                 ck.label("negative_axis_rejected")
+                return ck.verdict()
+        elif case.get("listed") and case["listed"] != list(idx):
+            ck.label("unsorted_index_list")
+            try:
+                got = lib(lambda: x.sum(list(case["listed"])))
+            except core.LibraryException:
+                ck.label("unsorted_index_list_rejected")
                 return ck.verdict()
         else:
             got = lib(lambda: x.sum(arg))
